@@ -59,6 +59,14 @@ func (w *World) NewProgSet(sp *ProgSpec, name, loaderKind string) *pongo2.Templa
 	return set
 }
 
+// reuseBuffer: the []byte handed to FromBytes / RenderTemplateBytes stays the caller's, who
+// uses it for something else as soon as the call has returned.
+func reuseBuffer(b []byte) {
+	for i := range b {
+		b[i] = 'Z'
+	}
+}
+
 // ApplyTplOptions is what a caller does who configures the options per template: it
 // must happen before the template is shared with other goroutines.
 func (sp *ProgSpec) ApplyTplOptions(tpl *pongo2.Template) {
